@@ -15,6 +15,8 @@ VARIABLES vs,      \* sequence of versions built so far (the last one is being e
 gvars == <<vs, step>>
 
 Pick(S) == IF Sample /\ S # {} THEN {RandomElement(S)} ELSE S
+\* a random draw is bound once by ranging over a singleton set (a LET name would be re-evaluated at every use)
+One(S) == CHOOSE x \in S : TRUE
 
 PrimCol(n, p, sz, pk, ai) == [name |-> n, ref |-> FALSE, prim |-> p, size |-> sz, rt |-> "", rc |-> "", pk |-> pk, autoinc |-> ai]
 RefCol(n, t, c, pk) == [name |-> n, ref |-> TRUE, prim |-> "", size |-> 0, rt |-> t, rc |-> c, pk |-> pk, autoinc |-> FALSE]
@@ -44,9 +46,9 @@ NewTable(v, t) ==
       d == IF RandomElement(1..3) = 1 THEN <<PrimCol("d", RandomElement({"date", "float", "bool"}), 0, FALSE, FALSE)>> ELSE <<>>
       tg == Targets(v, t)
       r1 == IF tg # {} /\ RandomElement(1..3) > 1
-              THEN LET x == RandomElement(tg) IN <<RefCol("r1", x[1], x[2], FALSE)>> ELSE <<>>
+              THEN One({<<RefCol("r1", x[1], x[2], FALSE)>> : x \in {RandomElement(tg)}}) ELSE <<>>
       r2 == IF tg # {} /\ RandomElement(1..3) = 1
-              THEN LET x == RandomElement(tg) IN <<RefCol("r2", x[1], x[2], RandomElement(1..4) = 1)>> ELSE <<>>
+              THEN One({<<RefCol("r2", x[1], x[2], RandomElement(1..4) = 1)>> : x \in {RandomElement(tg)}}) ELSE <<>>
   IN [name |-> t, cols |-> base \o k2 \o n \o d \o r1 \o r2]
 
 Init == vs = << <<>> >> /\ step = 0
@@ -90,19 +92,17 @@ Apply(v, e) ==
   CASE e.k = "addcol" ->
          LET tg == Targets(v, e.t)
              col == IF tg # {} /\ RandomElement(1..2) = 1
-                      THEN LET x == RandomElement(tg) IN RefCol("x1", x[1], x[2], FALSE)
+                      THEN One({RefCol("x1", x[1], x[2], FALSE) : x \in {RandomElement(tg)}})
                       ELSE PrimCol("x1", RandomElement({"int", "string", "date"}), RandomElement({0, 30}), RandomElement(1..5) = 1, FALSE)
          IN SetTable(v, e.t, Append(Table(v, e.t).cols, col))
     [] e.k = "dropcol" -> SetTable(v, e.t, Without(Table(v, e.t).cols, e.c))
     [] e.k = "retype" ->
-         LET old == Col(v, e.t, e.c)
-             np == RandomElement({"int", "string", "date"} \ {old.prim})
-         IN MapCol(v, e.t, e.c, LAMBDA x : [x EXCEPT !.prim = np, !.size = IF np = "string" THEN RandomElement({0, 30, 60}) ELSE 0])
+         One({MapCol(v, e.t, e.c, LAMBDA x : [x EXCEPT !.prim = np, !.size = IF np = "string" THEN RandomElement({0, 30, 60}) ELSE 0]) :
+                np \in {RandomElement({"int", "string", "date"} \ {Col(v, e.t, e.c).prim})}})
     [] e.k = "addtable" -> InsertTable(v, NewTable(v, e.t))
     [] e.k = "droptable" -> Without(v, e.t)
     [] e.k = "togglekey" -> MapCol(v, e.t, e.c, LAMBDA x : [x EXCEPT !.pk = ~@])
-    [] e.k = "addref" -> LET x == RandomElement(Targets(v, e.t))
-                         IN MapCol(v, e.t, e.c, LAMBDA y : RefCol(y.name, x[1], x[2], y.pk))
+    [] e.k = "addref" -> One({MapCol(v, e.t, e.c, LAMBDA y : RefCol(y.name, x[1], x[2], y.pk)) : x \in {RandomElement(Targets(v, e.t))}})
     [] e.k = "dropref" -> MapCol(v, e.t, e.c, LAMBDA y : PrimCol(y.name, "int", 0, y.pk, FALSE))
     [] e.k = "toggleautoinc" -> MapCol(v, e.t, "id", LAMBDA x : [x EXCEPT !.autoinc = ~@])
 
